@@ -211,7 +211,11 @@ impl FailSafe {
 
         kv.access(|mut kv, buf| {
             if let Some(fab_idx) = NonZeroU8::new(fab_idx_raw) {
-                fabrics.remove(fab_idx)?;
+                // The fabric may be gone already: `RemoveFabric` can take away the very fabric
+                // the fail-safe is armed for. That must not keep the fail-safe from expiring.
+                if fabrics.get(fab_idx).is_some() {
+                    fabrics.remove(fab_idx)?;
+                }
                 fabrics.add_load(fab_idx.get(), &mut kv, buf)?;
 
                 removed_fabric = fabrics.get(fab_idx).is_none().then_some(fab_idx);
